@@ -25,7 +25,7 @@ def run(run, replay_path=None, replay=None):
         fns.append(t.fn(f).describe())
     run.functions.extend(fns)
     binary = rp.build(run, 'c21')
-    configs = [(3, 4, ''), (3, 3, 'raw')] if run.tier != 'thorough' else [(3, 5, ''), (4, 4, ''), (3, 4, 'raw')]
+    configs = [(3, 4, ''), (3, 3, 'raw'), (4, 3, 'raw')] if run.tier != 'thorough' else [(3, 5, ''), (4, 4, ''), (3, 4, 'raw'), (4, 3, 'raw')]
     run.level = 'exploration'
     total_seq = total_checks = distinct = 0
     samples = []
